@@ -50,6 +50,9 @@ class ConcreteCtx:
     def record(self, name, value):
         pass
 
+    def inconclusive(self, label, why=""):
+        pass
+
     def check(self, label, cond, msg="", decided_by_solver=False):
         self.checked.append(label)
         if not cond:
